@@ -36,7 +36,14 @@ let run () =
   | "weights" ->
       let j = nint () in let g = nint () in
       let groups = times g (group j) in
-      (match weights_eval numf (nat_of_int j) groups with
+      (* the service as an object: record arrays are created per (dataset, group) by
+         to_rec, the stub detector yield of cell (j', g') evaluates the record array it is
+         given by looking up the yields of the cell that BUILT the array *)
+      let ws = List.map fst groups in
+      let tbl = Array.of_list (List.map (fun (_, yc) -> Array.of_list yc) groups) in
+      let to_rec zj zg zg' = ((int_of_z zj, int_of_z zg), int_of_z zg') in
+      let yield_call _ _ ((rj, rg), _) = tbl.(rg).(rj) in
+      (match weights_eval_svc numf (nat_of_int j) (ws, to_rec) [] yield_call with
        | Ok (a, f) ->
            print_endline ("Ok " ^ String.concat " ; " (List.map fls a) ^ " | " ^ fls f)
        | Err e -> print_endline ("Err " ^ err_name e))
